@@ -20,6 +20,9 @@ type hotpCase struct {
 	NilParam bool   `json:"nil_param"`
 	Digits   uint8  `json:"digits"`
 	Algo     uint8  `json:"algo"`
+	// fields of Param that generation does not use; any value must leave the result unchanged
+	Skew   uint64 `json:"skew_unused"`
+	Period uint64 `json:"period_unused"`
 }
 
 func callGenerateHOTP(secret string, counter uint64, p *otp.Param) (code string, err error, pan any) {
@@ -56,7 +59,8 @@ func judgeHOTP(c *Ctx, k hotpCase) {
 	if k.NilParam {
 		digits, algo = 6, ref.SHA1
 	} else {
-		p = &otp.Param{Digits: otp.Digits(k.Digits), Algorithm: otp.Algorithm(k.Algo)}
+		k.Skew, k.Period = unusedField(k.Counter^uint64(len(k.Secret))), unusedField(k.Counter>>9^uint64(k.Digits))
+		p = &otp.Param{Digits: otp.Digits(k.Digits), Algorithm: otp.Algorithm(k.Algo), Skew: uint(k.Skew), Period: uint(k.Period)}
 	}
 	code, err, pan := callGenerateHOTP(k.Secret, k.Counter, p)
 	r.Eval(1)
